@@ -373,6 +373,56 @@ def analyse_mapfold(ck, fn, struct, blocked):
                 t_ = strip(t_["b"]) if t_.get("k") == "Index" else strip((t_.get("a") or [{}])[0])
             if t_.get("k") == "Ref" and t_.get("dk") == "local":
                 written_locals.add(t_["d"])
+    # zeros are admissible data: a division the definition does not contain, by a value derived from the array contents and not
+    # guarded by a test of that value, turns vanishing data into inf/NaN where the definition gives a finite value
+    if not any(isinstance(p_, sympy.Pow) and p_.exp.is_negative for p_ in sympy.preorder_traversal(definition)):
+        tainted = set()
+
+        def from_data(n):
+            return any((y.get("k") == "Index" and ctx.loc.resolve(y["b"]).get("d") in ctx.ptr) or (y.get("k") == "Un" and y.get("op") == "*")
+                       or (y.get("k") == "Ref" and y.get("d") in tainted) for y in walk(n))
+        changed = True
+        while changed:
+            changed = False
+            for y in fn.nodes():
+                tgt, src = None, None
+                if y.get("k") == "Var" and y.get("init") is not None:
+                    tgt, src = y["d"], y["init"]
+                elif y.get("k") == "Assign":
+                    t_ = strip(y["lhs"])
+                    while t_.get("k") in ("Index", "OpCall"):
+                        t_ = strip(t_["b"]) if t_.get("k") == "Index" else strip((t_.get("a") or [{}])[0])
+                    if t_.get("k") == "Ref" and t_.get("dk") == "local":
+                        tgt, src = t_["d"], y["rhs"]
+                if tgt is not None and tgt not in tainted and from_data(src):
+                    tainted.add(tgt)
+                    changed = True
+
+        def scan(n, conds):
+            if not isinstance(n, dict):
+                return
+            k = n.get("k")
+            div = None
+            if k == "Bin" and n.get("op") == "/":
+                div = n["rhs"]
+            elif k == "Assign" and n.get("op") == "/=":
+                div = n["rhs"]
+            if div is not None and from_data(div):
+                names = {y.get("d") for y in walk(div) if y.get("k") == "Ref"}
+                guarded = any(names & {y.get("d") for y in walk(c) if y.get("k") == "Ref"} for c in conds) or \
+                    any(render(strip(div)) in render(c) for c in conds)
+                if not guarded:
+                    ck.ob("E5.definition", "%s/zero-data" % key0, False,
+                          "[%s] line %s divides by `%s`, a value derived from the array contents that no test guards: for vanishing data (an all-zero vector or component - admissible input) the kernel computes 0/0 = NaN resp. x/0 = inf, the element-wise definition %s gives a finite value" % (
+                              inst, n.get("l"), render(div)[:50], definition), file, n.get("l"))
+            if k in ("If", "Cond"):
+                scan(n.get("c"), conds)
+                for br in ("then", "else"):
+                    scan(n.get(br), conds + [n["c"]])
+                return
+            for ch in featlib.children(n):
+                scan(ch, conds)
+        scan(fn.body, [])
     try:
         leaves = decision_leaves(stmts(fn.body))
     except Unknown as e:
@@ -961,8 +1011,18 @@ def check_call_site(ck, fn, call):
     objs = {}
     persp = {}
     acc_cls = {}
+    offsets = {}
     for s in array_slots:
         a = accessor(loc, slots[s])
+        if a is None and struct == "ComponentCopy":
+            # `elements<pod>() + k`: the array advanced to component k (the kernel adds its own `block` to every address)
+            r0 = loc.resolve(slots[s])
+            if r0.get("k") == "Bin" and r0.get("op") == "+":
+                for base_, off_ in ((r0["lhs"], r0["rhs"]), (r0["rhs"], r0["lhs"])):
+                    a2 = accessor(loc, base_)
+                    if a2 is not None and a2["name"] == "elements":
+                        a, offsets[s] = a2, off_
+                        break
         if a is None or a["name"] != "elements":
             ck.incomplete("E1.operands", "%s: slot %s receives `%s`, which is not an elements<>() accessor of an operand (pointer obtained by a construct the rule does not model)" % (key, s, render(slots[s])[:80]))
             return
@@ -978,7 +1038,41 @@ def check_call_site(ck, fn, call):
             problems.append("output slot r carries `%s`, not the receiver" % objs.get("r"))
         elif "r" in slots and fn.d.get("const") and struct != "ComponentCopy":
             problems.append("const member passes its own array in an output slot")
+    comp_done = False
+    if struct == "ComponentCopy" and "block" in slots and len(scal_params) == 1:
+        # address of entry i as the kernel forms it: (array + offset)[i*stride + block] -> component offset + block of block i
+        def csym(n):
+            n = loc.resolve(n)
+            if n.get("k") == "Int":
+                return sympy.Integer(int(n["v"]))
+            if n.get("k") == "Ref" and n.get("dk") == "param":
+                return sympy.Symbol(n["n"])
+            if n.get("k") == "Ref" and "v" in n:
+                return sympy.Integer(int(n["v"]))
+            if n.get("k") == "Bin" and n.get("op") in ("+", "-", "*"):
+                x_, y_ = csym(n["lhs"]), csym(n["rhs"])
+                return {"+": x_ + y_, "-": x_ - y_, "*": x_ * y_}[n["op"]]
+            raise Unknown("component term `%s`" % render(n)[:40])
+        try:
+            eff = csym(slots["block"])
+            for s_, off_ in offsets.items():
+                if s_ != "r":
+                    raise Unknown("offset on the plain array in slot %s" % s_)
+                eff = eff + csym(off_)
+            if sympy.expand(eff - sympy.Symbol(scal_params[0])) != 0:
+                problems.append("the kernel addresses component %s of every block (array %s, block slot `%s`), the operation names component `%s`%s" % (
+                    sympy.expand(eff), ("advanced by `%s`" % render(offsets["r"])) if "r" in offsets else "from its start", render(slots["block"]), scal_params[0],
+                    ": the component offset is applied twice" if "r" in offsets else ""))
+            comp_done = True
+        except Unknown as e:
+            ck.incomplete("E1.operands", "%s: %s" % (key, e))
+            return
+    elif offsets:
+        ck.incomplete("E1.operands", "%s: array slot receives an advanced pointer (not modelled)" % key)
+        return
     for s in ("a", "s", "block"):
+        if s == "block" and comp_done:
+            continue
         if s in slots:
             v = loc.resolve(slots[s])
             if not (v.get("k") == "Ref" and v.get("dk") == "param") or len(scal_params) != 1:
@@ -1131,11 +1225,22 @@ def check_size_bookkeeping(ck, fn):
                 if o.get("k") == "Member" and o.get("n") == "_elements_size":
                     sites.append((n, rhs))
     allocs = [render(strip(c["a"][0])) for c in fn.calls(callee_re=r"MemoryPool::allocate_memory") if c.get("a")]
+    scalar_container = strip_targs(fn.cls) not in BLOCKED_CLASSES
     for k, (node, e) in enumerate(sites):
         key = "%s::%s%s/_elements_size#%d" % (short(fn.cls), fn.name, sig, k)
         r = loc.resolve(e)
         a = accessor(loc, e)
         ok, why = None, ""
+        if scalar_container:
+            # the array of a scalar container holds scalars: every count is one unless it is the native (block) count of a
+            # blocked operand whose pod array is being adopted (convert / constructor from a blocked vector)
+            bad = [y for y in walk(r) if y.get("k") == "MCall" and not y.get("a") and y.get("n") in ("size", "used_elements", "allocated_elements")
+                   and strip_targs(y.get("ccls", "")) in BLOCKED_CLASSES and perspective(y) != "pod"]
+            ck.ob("E1.size-bookkeeping", key, not bad,
+                  ("records `%s`: %s.%s() of a blocked vector counts blocks, but the array adopted from it holds size<Perspective::pod>() = blocks x BlockSize scalars and Container::format/_copy_content/clone/serialisation read _elements_size as the number of scalars" % (
+                      render(e), objkey(bad[0].get("obj")), bad[0].get("n"))) if bad else "records `%s` (scalar container: a scalar count)" % render(e)[:60],
+                  fn.file, node.get("l"))
+            continue
         if a is not None and a["name"] in ("size", "used_elements", "allocated_elements"):
             blocked_obj = strip_targs(a["cls"]) in BLOCKED_CLASSES
             if a["persp"] == "pod":
@@ -1570,11 +1675,11 @@ def run(tier):
     ck.rule("E2.kernel-loop", "for every aliasing pattern of its array parameters, the code a generic vector kernel executes under that pattern (whatever the spelling of its alias tests: if/else chain, early return, negated test) is one induction over [0,size) (blocked: times [0,n); index loop, reversed index loop or pointer cursors in lock step) whose single update addresses every array at the current element and writes the output array r resp. the accumulator. Broken for: any size>1 (stale/partial output), sizes that are not a multiple of a stride.", 66)
     ck.rule("E2.reduction", "dot/triple_dot/norm kernels start the accumulator from 0 and return it (Norm2: its square root). Broken for: every non-empty input (uninitialised or wrong start), empty vectors (must give 0).", 14)
     ck.rule("E2.index-kernel", "min/max(_abs) index kernels: the loop covers [0,size), the candidate compared is the one stored, the direction matches the name, the incumbent is seeded from element 0 (0 only for max-abs), blocked kernels reset the incumbent index per component. Broken for: all-negative vectors (seed 0), negative first element (min_abs seeded without abs), block vectors whose extreme components sit at different positions.", 14)
-    ck.rule("E5.definition", "the general branch of every kernel equals the documented element-wise definition (polynomial/rational normal form); a branch selected by a test of the scalar arguments (alpha == 0, |alpha| < tol, ...) computes what the definition gives under that test - a deviation that depends on the array contents is a violation, one that depends on the tested scalar only is a floating-point argument the rule does not decide. Broken for: all non-aliased calls; scalar values inside the tested range with r = 0 or |x| >> |r|.", 26)
+    ck.rule("E5.definition", "the general branch of every kernel equals the documented element-wise definition (polynomial/rational normal form); a branch selected by a test of the scalar arguments (alpha == 0, |alpha| < tol, ...) computes what the definition gives under that test - a deviation that depends on the array contents is a violation, one that depends on the tested scalar only is a floating-point argument the rule does not decide; a kernel whose definition has no division does not divide by an unguarded value derived from the array contents (zeros are admissible data). Broken for: all-zero vectors / components (NaN), all non-aliased calls; scalar values inside the tested range with r = 0 or |x| >> |r|.", 26)
     ck.rule("E5.alias-branch", "for every aliasing pattern of the array parameters (r==x, x==y, x==z, y==z, r==x==y, ...) the code executed under that pattern equals the general branch after substituting the aliasing. Broken for: calls that pass the same vector for two operands (never done by the tests).", 38)
-    ck.rule("E1.operands", "Arch call sites of DenseVector/DenseVectorBlocked/SparseVector(Blocked): the array slots carry the receiver and every vector parameter exactly once (receiver in the output slot r), the scalar slot carries the scalar parameter. Broken for: any x != y, alpha != 1.", 65)
+    ck.rule("E1.operands", "Arch call sites of DenseVector/DenseVectorBlocked/SparseVector(Blocked): the array slots carry the receiver and every vector parameter exactly once (receiver in the output slot r), the scalar slot carries the scalar parameter; ComponentCopy: array offset + block slot together name the component the operation names (the kernel addresses r[i*stride + block] from the pointer it gets). Broken for: any x != y, alpha != 1, component index > 0 when the offset is applied at both sites.", 65)
     ck.rule("E1.extent", "the extent slot carries the number of entries of the arrays passed: size<P>() for dense, used_elements<P>() for sparse vectors, P = perspective of the arrays (pod arrays with pod extent), of the receiver or an operand asserted equal; set_vec/set_vec_inv copy counts likewise; library array routines inside the operations (MemoryPool::set_memory/copy/convert) receive value arrays and count in the same unit (scalars vs blocks). Broken for: block size > 1 (only 1/BlockSize of the data processed or overrun), sparse vectors with fewer entries than their dimension, special-case paths (alpha == 0) of blocked vectors.", 71)
-    ck.rule("E1.size-bookkeeping", "every extent a DenseVectorBlocked / SparseVectorBlocked constructor, convert, read_from or insertion records in _elements_size for its pod array is a pod count (size<Perspective::pod>(), blocks x BlockSize, or the very count the array was allocated with) - what Container::format/_copy_content iterate over; all sites of a class agree. Broken for: format()/copy() on range views or freshly built blocked vectors with BlockSize > 1 (only 1/BlockSize of the scalars touched).", 17)
+    ck.rule("E1.size-bookkeeping", "every extent a DenseVectorBlocked / SparseVectorBlocked constructor, convert, read_from or insertion records in _elements_size for its pod array is a pod count (size<Perspective::pod>(), blocks x BlockSize, or the very count the array was allocated with) - what Container::format/_copy_content/clone iterate over; all sites of a class agree; a DenseVector that adopts the pod array of a blocked vector (convert / constructor) records a scalar count, never the native (block) count of the source. Broken for: format()/copy()/clone() on range views, freshly built blocked vectors or converted vectors with BlockSize > 1 (only 1/BlockSize of the scalars touched).", 17)
     ck.rule("E7.sort-before-read", "the lazily sorting accessors of SparseVector / SparseVectorBlocked (elements<P>(), indices(), used_elements<P>(): every class, constness and perspective instantiation of a name that sorts in any sibling) return container state only on paths that passed `if(sorted()==0) sort()`. Broken for: vectors filled out of order or with repeated indices, read through the instantiation that skips the step (count before duplicates are merged -> min/max kernels read a stale tail).", 13)
     ck.rule("E7.no-resort-in-update", "the element setter operator()(index, value) of SparseVector / SparseVectorBlocked clears the sorted flag on every path and, until it returns, calls no member that (transitively) runs sort() - the function's own CAUTION comment. Broken for: the insertion that exceeds the allocated capacity when it updates an existing index or is not the largest index: the container stays flagged sorted with an unsorted / duplicated tail, so used_elements(), operator()(i) and min/max(_abs)_element read stale data.", 2)
     ck.rule("E1.block-guard", "component_copy/component_copy_to guard the block index against the stride they pass to the kernel (0 <= block < BlockSize). Broken for: vectors with fewer blocks than BlockSize (valid index rejected), block >= BlockSize on long vectors (out-of-bounds write accepted).", 4)
@@ -1655,7 +1760,7 @@ def run(tier):
                 for c in fn.calls(callee_re=ARCH_RE):
                     if c.get("k") == "Call":
                         check_call_site(ck, fn, c)
-                if base in BLOCKED_CLASSES:
+                if base in BLOCKED_CLASSES or base == "FEAT::LAFEM::DenseVector":
                     check_size_bookkeeping(ck, fn)
                 if base in SPARSE_CLASSES and fn.name in lazy_names and not fn.params:
                     check_lazy_sort(ck, fn)
